@@ -23,6 +23,7 @@ fn main() {
         "C06" => c06::run(&tier),
         "C07" => c07::run(&tier),
         "C08" => c08::run(&tier),
+        "C09" => c09::run(&tier),
         _ => {
             eprintln!("unknown property {}", id);
             2
